@@ -29,7 +29,10 @@ REPLAY_ATTEMPTS = 2
 
 BLOCKS = [1, 2, 3, 5, 8, 64, 8192]
 THROTTLES = [None, ("server", "read", 20000), ("server", "write", 3000), ("conn", "write", 5000), ("conn", "read", 7000),
-             ("client", "write", 4000), ("client", "read", 2500), None, None]
+             ("client", "write", 4000), ("client", "read", 2500), None, None,
+             # 0 means "no limit" to the throttle code: degenerate limits must not change the bytes either
+             ("server", "write", 0), ("conn", "read", 0), ("user", "write", 0), ("user", "read", 900), ("userconn", "write", 1200),
+             ("client", "read", 0)]
 OP = st.tuples(st.sampled_from(["stor", "appe", "stor_off", "appe_off", "retr", "retr_off", "stor", "retr", "upload_file", "download_file"]),
                st.integers(0, 1),  # file
                st.integers(0, 255),  # size selector
@@ -114,9 +117,12 @@ async def _run(loop, case, ctx_info, tmp):
             skw[f"{direction}_speed_limit"] = limit
         elif where == "conn":
             skw[f"{direction}_speed_limit_per_connection"] = limit
-        else:
+        elif where == "client":
             ckw[f"{direction}_speed_limit"] = limit
-    users = [aioftp.User(base_path=tmp)] if backend != "mem" else [aioftp.User()]
+    ukw = {}
+    if throttle and throttle[0] in ("user", "userconn"):
+        ukw[f"{throttle[1]}_speed_limit" + ("_per_connection" if throttle[0] == "userconn" else "")] = throttle[2]
+    users = [aioftp.User(base_path=tmp, **ukw)] if backend != "mem" else [aioftp.User(**ukw)]
     # behaviour-neutral server options (pool, limits far above the traffic, long timeouts) vary with the case
     neutral = [{}, {}, {"data_ports": [5001, 5002, 5003, 5004]}, {"maximum_connections": 3}, {"socket_timeout": 900, "idle_timeout": 900},
                {"path_timeout": 900}, {"ipv4_pasv_forced_response_address": "127.0.0.1"}][(len(tape) + block) % 7]
